@@ -68,7 +68,8 @@ def sel_C01(d, kind, f):
 def sel_C02(d, kind, f):
     # "for every writable field": contiguous ones are C02's own domain; arrays and range lists are included as well
     # (their element-wise statements are C03/C04; the write/read-back/frame statement is the same)
-    return kind in ('with', 'set')
+    # ... and "reading the field back yields v": the getter of a field that can be written is part of the statement
+    return kind in ('with', 'set') or (kind == 'get' and 'w' in f['acc'])
 
 
 def sel_C03(d, kind, f):
@@ -88,7 +89,8 @@ def sel_C08(d, kind, f):
 
 
 def sel_C11(d, kind, f):
-    return kind in ('with', 'set') and d['base'] not in D.NATIVE
+    # an N-bit register seen through every accessor: writes must not create, getters must not reveal, state above bit N-1
+    return kind in ('get', 'with', 'set') and d['base'] not in D.NATIVE
 
 
 def sel_C12(d, kind, f):
